@@ -34,25 +34,25 @@ PKG = "yv-c06"
 GEN = {
     "quick": [("lex", {"MAXTOK": 4}), ("cmd", {"MAXTOK": 6}), ("word", {"MAXUNITS": 2}), ("hd", {"MAXTOK": 11}),
               ("struct", {"MAXTOK": 8}), ("ctl", {"MAXTOK": 13}), ("wordall", {"MAXUNITS": 1})],
-    "thorough": [("lex", {"MAXTOK": 5}), ("cmd", {"MAXTOK": 8}), ("wordall", {"MAXUNITS": 2}),
-                 ("struct", {"MAXTOK": 10}), ("hd", {"MAXTOK": 13}), ("ctl", {"MAXTOK": 16})],
+    "thorough": [("lex", {"MAXTOK": 5}), ("cmd", {"MAXTOK": 7}), ("hd", {"MAXTOK": 12}), ("wordall", {"MAXUNITS": 2}),
+                 ("struct", {"MAXTOK": 9}), ("ctl", {"MAXTOK": 15})],
 }
 # profiles whose derivations are also mutated (impl -> spec)
-MUTATED = {"quick": {"cmd", "struct", "ctl", "hd"}, "thorough": {"cmd", "struct", "ctl", "hd", "lex", "wordall"}}
+MUTATED = {"quick": {"cmd", "struct", "ctl", "hd"}, "thorough": {"cmd", "struct", "ctl", "hd"}}
 # (profile, MAXTOK, traces per worker)
 SIM = {
     "quick": [("lex", 16, 50), ("cmd", 14, 30)],
-    "thorough": [("lex", 20, 3000), ("hd", 18, 2000), ("struct", 26, 2000), ("cmd", 18, 2000), ("word", 12, 3000)],
+    "thorough": [("lex", 20, 600), ("hd", 18, 400), ("struct", 26, 400), ("cmd", 18, 400), ("word", 12, 2000)],
 }
 # (alphabet, maximal length)
 SOUP = {
     "quick": [("full", 2), ("small", 3), ("tiny", 4)],
     "thorough": [("full", 3), ("small", 4), ("tiny", 5)],
 }
-VARIANTS = {"quick": 3, "thorough": 5}
-MUTANTS = {"quick": 1, "thorough": 3}
+VARIANTS = {"quick": 3, "thorough": 4}
+MUTANTS = {"quick": 1, "thorough": 1}
 MUT_EVERY = {"quick": 2, "thorough": 1}      # mutate every n-th derivation
-RANDOM_SOUP = {"quick": 20000, "thorough": 1500000}
+RANDOM_SOUP = {"quick": 20000, "thorough": 400000}
 
 
 def _key(rec, fail):
